@@ -36,6 +36,11 @@ int run_ddl(const Args& a) {
         unsigned pop = static_cast<unsigned>(r.below(3));
         if (pop == 0) {
             drop_bystanders();
+            if (r.chance(1, 2)) {
+                // null namespace root: the racing creates go through the root-creation path of put()
+                yk::destroy();
+                rep.count("races_on_null_namespace_root");
+            }
         } else {
             if (bystanders.size() > 25) { drop_bystanders(); }
             add_bystanders(pop == 1 ? 1 : 20);
